@@ -401,6 +401,7 @@ impl<Service: service::Service> NodeState<Service> {
         let node_view = AliveNodeView::<Service> {
             id: *node_id,
             details,
+            config: config.clone(),
             _service: PhantomData,
         };
 
@@ -454,6 +455,8 @@ pub trait NodeView {
 pub struct AliveNodeView<Service: service::Service> {
     id: UniqueNodeId,
     details: Option<NodeDetails>,
+    // the config with which the node was discovered, used whenever the details are not available
+    config: Config,
     _service: PhantomData<Service>,
 }
 
@@ -462,6 +465,7 @@ impl<Service: service::Service> Clone for AliveNodeView<Service> {
         Self {
             id: self.id,
             details: self.details.clone(),
+            config: self.config.clone(),
             _service: PhantomData,
         }
     }
@@ -505,6 +509,7 @@ impl<Service: service::Service> DeadNodeView<Service> {
     ) -> Result<(), NodeCleanupFailure> {
         DeadNodeView(AliveNodeView {
             id,
+            config: details.config().clone(),
             details: Some(details),
             _service: PhantomData::<Service>,
         })
@@ -519,6 +524,7 @@ impl<Service: service::Service> DeadNodeView<Service> {
     ) -> Result<(), NodeCleanupFailure> {
         DeadNodeView(AliveNodeView {
             id,
+            config: details.config().clone(),
             details: Some(details),
             _service: PhantomData::<Service>,
         })
@@ -606,10 +612,13 @@ impl<Service: service::Service> DeadNodeView<Service> {
             .on_drop(|v| v.store(false, Ordering::Relaxed))
             .create()?;
 
+        // The details are not available when the node died before it could create them or when a
+        // previous cleanup attempt has already removed them. The node was discovered with
+        // self.0.config, therefore its monitoring token and everything else can be found with it.
         let config = if let Some(d) = self.details() {
             d.config()
         } else {
-            Config::global_config()
+            &self.0.config
         };
 
         let cleaner = fail!(from self, when self.acquire_cleaner_lock(&monitor_name, config),
@@ -1586,9 +1595,13 @@ impl NodeBuilder {
         let msg = "Unable to create node";
         let monitor_name = fatal_panic!(from self, when FileName::new(node_id.value().to_string().as_bytes()),
                                 "This should never happen! {msg} since the UniqueSystemId is not a valid file name.");
+        // !MUST! be the first thing that is created. Node::list() discovers the nodes only via
+        // their monitoring token. If the process is killed while the node is created, the token
+        // guarantees that everything that is created afterwards can be found and removed by the
+        // dead node cleanup of another process.
+        let monitoring_token = self.create_token::<Service>(config, &monitor_name)?;
         let (details_storage, details) =
             self.create_node_details_storage::<Service>(config, &node_id)?;
-        let monitoring_token = self.create_token::<Service>(config, &monitor_name)?;
 
         let state = Arc::new(SharedNodeState {
             id: node_id,
